@@ -112,6 +112,7 @@ CallValue(st, f, args, multi, ln) ==
 RECURSIVE DoIndex(_, _, _, _, _)
 DoIndex(st, o, k, ln, fuel) ==
     IF fuel = 0 THEN Fault(st, ln)
+    ELSE IF IsOpaqueStr(o) \/ IsOpaqueStr(k) THEN Unmod(st, "index with fault text")
     ELSE IF o[1] = "t"
     THEN LET v == TGet(st.heap[o[2]].kv, k)
              h == IF v = Nil THEN MetaField(st, o, "__index") ELSE Nil
@@ -184,7 +185,7 @@ CallComp(st, h, a, b, neg, ln) ==
     [s1 EXCEPT !.kont = Append(Append(Pop(@), [w |-> "tobool", neg |-> neg]), Top(@))]
 
 DoEq(st, a, b, neg, ln) ==
-    IF a[1] = "rtmsg" \/ b[1] = "rtmsg" THEN Unmod(st, "compare fault text")
+    IF IsOpaqueStr(a) \/ IsOpaqueStr(b) THEN Unmod(st, "compare fault text")
     ELSE IF a[1] # b[1] THEN PushBool(st, neg)
     ELSE IF a = b THEN PushBool(st, ~neg)
     ELSE IF a[1] \in {"t", "u"}
@@ -195,7 +196,7 @@ DoEq(st, a, b, neg, ln) ==
 DoLt(st, a, b, ln) ==
     IF a[1] = "n" /\ b[1] = "n" THEN PushBool(st, a[2] < b[2])
     ELSE IF a[1] = "s" /\ b[1] = "s" THEN PushBool(st, BytesLess(a[2], b[2], 1))
-    ELSE IF a[1] \in {"rtmsg", "anystr"} \/ b[1] \in {"rtmsg", "anystr"} THEN Unmod(st, "compare fault text")
+    ELSE IF IsOpaqueStr(a) \/ IsOpaqueStr(b) THEN Unmod(st, "compare fault text")
     ELSE IF TypeName(a) # TypeName(b) THEN Fault(st, ln)      \* luaV_lessthan: different types are an order error
     ELSE LET h == CompHandler(st, a, b, "__lt") IN
          IF h = Nil THEN Fault(st, ln) ELSE CallComp(st, h, a, b, FALSE, ln)
@@ -203,7 +204,7 @@ DoLt(st, a, b, ln) ==
 DoLe(st, a, b, ln) ==
     IF a[1] = "n" /\ b[1] = "n" THEN PushBool(st, a[2] <= b[2])
     ELSE IF a[1] = "s" /\ b[1] = "s" THEN PushBool(st, ~BytesLess(b[2], a[2], 1))
-    ELSE IF a[1] \in {"rtmsg", "anystr"} \/ b[1] \in {"rtmsg", "anystr"} THEN Unmod(st, "compare fault text")
+    ELSE IF IsOpaqueStr(a) \/ IsOpaqueStr(b) THEN Unmod(st, "compare fault text")
     ELSE IF TypeName(a) # TypeName(b) THEN Fault(st, ln)
     ELSE LET h == CompHandler(st, a, b, "__le") IN
          IF h # Nil THEN CallComp(st, h, a, b, FALSE, ln)
@@ -230,7 +231,7 @@ DoUn(st, op, a, ln) ==
                  IF h = Nil THEN Fault(st, ln) ELSE CallValue(st, h, <<a>>, FALSE, ln))
       [] op = "#" ->
            (IF a[1] = "s" THEN PushV(st, <<Num(Len(a[2]))>>)
-            ELSE IF a[1] = "rtmsg" THEN Unmod(st, "length of fault text")
+            ELSE IF IsOpaqueStr(a) THEN Unmod(st, "length of fault text")
             ELSE IF a[1] = "t"
                  THEN (IF BorderUnique(st.heap[a[2]].kv)
                        THEN PushV(st, <<Num(SmallestBorder(st.heap[a[2]].kv))>>)
@@ -358,7 +359,7 @@ EvalExpr(N, st, it) ==
             [AllocObj(st, NewTab) EXCEPT !.vals = Append(@, <<<<"t", tref>>>>),
                                          !.kont = Append(K, [w |-> "tabc", e |-> e, i |-> 1, n |-> 1, env |-> env])])
 (* ---- emit: tokens with first-appearance identity ------------------------------------- *)
-IsPrim(v) == v[1] \in {"nil", "b", "n", "s", "rtmsg", "anystr"}
+IsPrim(v) == v[1] \in {"nil", "b", "n", "s", "rtmsg", "anystr", "fault"}
 SeenIdx(seen, v) == {j \in 1..Len(seen) : seen[j][1] = v[1] /\ seen[j] = v}
 RECURSIVE TokList(_, _, _, _)
 TokList(vs, i, toks, seen) ==
@@ -448,7 +449,7 @@ Builtin(N, st, name, a, multi, ln) ==
                  THEN (LET r == StrToNum(a1[2]) IN
                        IF r[1] = "n" THEN RetV(st, <<r>>, multi)
                        ELSE IF r[1] = "no" THEN RetV(st, <<Nil>>, multi) ELSE Unmod(st, "numeral"))
-            ELSE IF a1[1] \in {"rtmsg", "anystr"} THEN Unmod(st, "tonumber of fault text")
+            ELSE IF IsOpaqueStr(a1) THEN Unmod(st, "tonumber of fault text")
             ELSE RetV(st, <<Nil>>, multi))
       [] name = "select" ->
            (IF a1 = Str(<<35>>) THEN RetV(st, <<Num(n - 1)>>, multi)
@@ -471,7 +472,7 @@ Builtin(N, st, name, a, multi, ln) ==
       [] name = "rawset" -> (IF a1[1] # "t" \/ n < 3 \/ BadKey(a2) THEN Fault(st, ln)
                              ELSE RetV(RawSetTab(st, a1[2], a2, a3), <<a1>>, multi))
       [] name = "rawequal" -> (IF n < 2 THEN Fault(st, ln)
-                               ELSE IF a1[1] \in {"rtmsg", "anystr"} \/ a2[1] \in {"rtmsg", "anystr"} THEN Unmod(st, "compare fault text")
+                               ELSE IF IsOpaqueStr(a1) \/ IsOpaqueStr(a2) THEN Unmod(st, "compare fault text")
                                ELSE RetV(st, <<Bool(RawEq(a1, a2))>>, multi))
       [] name = "next" ->
            (IF a1[1] # "t" THEN Fault(st, ln)
@@ -516,7 +517,7 @@ Builtin(N, st, name, a, multi, ln) ==
                              IF r.ln = NoPos \/ ~OneLine(r.ln) THEN Unmod(st, "error level 2 from host-called function")
                              ELSE Raise(st, Str(PosPrefix(r.ln) \o a1[2])))
                        ELSE Unmod(st, "error level > 2"))
-                 ELSE IF a1[1] \in {"rtmsg", "anystr"} /\ lv[1] = "n" /\ lv[2] > 0 THEN Unmod(st, "rethrow of fault text with position")
+                 ELSE IF IsOpaqueStr(a1) /\ lv[1] = "n" /\ lv[2] > 0 THEN Unmod(st, "rethrow of fault text with position")
                  ELSE Raise(st, a1))
       [] name = "assert" ->
            (IF n = 0 THEN Fault(st, ln)
@@ -548,6 +549,12 @@ Builtin(N, st, name, a, multi, ln) ==
            (IF a1[1] # "n" \/ a1[2] < 0 \/ a1[2] > 50 THEN Unmod(st, "gret count") ELSE RetV(st, AdjustN(SubSeq(a, 2, n), a1[2]), multi))
       [] name = "gcall" ->     \* host function re-entering Lua: calls a1 with the rest, returns all results
            (IF n = 0 THEN Fault(st, ln) ELSE CallValue(st, a1, SubSeq(a, 2, n), multi, NoPos))
+      [] name = "gerr" ->      \* host function failing with RaiseError: like error(msg, 1)
+           (IF a1[1] # "s" THEN Fault(st, ln) ELSE IF ~OneLine(ln) THEN Unmod(st, "gerr call spans lines")
+            ELSE Raise(st, Str(PosPrefix(ln) \o a1[2])))
+      [] name = "gpanic" ->    \* Go panic inside a host function: reaches pcall as the panic text
+           (IF a1[1] # "s" THEN Fault(st, ln) ELSE Raise(st, a1))
+      [] name = "snap" -> RetV(st, <<>>, multi)      \* harness snapshot: no effect on the semantics
       [] name = "co.create" ->
            (IF ~(a1[1] = "f") THEN (IF IsFn(a1) THEN Unmod(st, "coroutine over host function") ELSE Fault(st, ln))
             ELSE RetV(AllocObj(st, [o |-> "co", status |-> "suspended", started |-> FALSE, fn |-> a1,
@@ -731,7 +738,7 @@ Step(N, st) ==
 (* ---- initial state ------------------------------------------------------------------------------- *)
 GlobalNames == <<"emit", "type", "tostring", "tonumber", "select", "unpack", "rawget", "rawset", "rawequal",
                  "next", "pairs", "ipairs", "setmetatable", "getmetatable", "pcall", "xpcall", "error", "assert",
-                 "getfenv", "setfenv", "newproxy", "gret", "gcall">>
+                 "getfenv", "setfenv", "newproxy", "gret", "gcall", "gerr", "gpanic", "snap">>
 CoNames == <<"create", "resume", "yield", "status", "wrap", "running">>
 
 (* heap: 1 = globals, 2 = main closure, 3 = coroutine table, 4 = string metatable, 5 = string table *)
